@@ -264,6 +264,104 @@ def extra_histories():
                    "shape": "extra:make_parameter_dynamic"}
 
 
+SUR3 = {"args": ["x"], "outs": ["o3", "ef"], "es": [["+", A(0), K(1)], ["*", A(0), K(2)]], "st": [["ef", []]]}
+
+
+def empty_flux_histories():
+    """a surrogate flux with an EMPTY stoichiometry (`stoichiometries={"ef": {}}`): `get_surrogate_reaction_names` lists
+    it, but no `stoich[...] = …` can be written for it — `make_parameter_dynamic` naming it must be rejected before the
+    parameter is converted; the flux shows in the name getters, the stoichiometry tables and `get_args`"""
+    pre = [["add_surrogate", "n1", SUR3]]
+    for q in (None, QUERIES[0], QUERIES[2]):
+        for mpd in (["make_parameter_dynamic", "k", None, [["ef", "1"]]],
+                    ["make_parameter_dynamic", "p", "2", [["r1", "1"], ["ef", "-1"]]],
+                    ["make_parameter_dynamic", "k", None, [["sf", "1"], ["ef", "2"]]],
+                    ["update_surrogate", "n1", None, None, None, [["ef", [["y", {"c": "1"}]]]]],
+                    ["update_surrogate", "s", None, None, None, [["sf", []]]],
+                    ["remove_variable", "x", True]):
+            mid = pre + ([q] if q else []) + [mpd, ["q", "names", "surrxns"], ["q", "names", "survars"],
+                                               ["q", "stoich", ["1", "2", "3", "1"], "1"], ["q", "fluxes", None, "0"]]
+            yield {"ops": BASE + mid + BATTERY[-2:], "check_from": len(BASE), "stratum": "emptyflux",
+                   "shape": f"emptyflux:{mpd[0]}"}
+        # the flux gets wired first: now it IS a target
+        mid = pre + [["update_surrogate", "n1", None, None, None, [["ef", [["y", {"c": "1"}]]]]]] + ([q] if q else []) + [
+            ["make_parameter_dynamic", "k", None, [["ef", "3"]]], ["q", "stoich", ["1", "2", "3", "1"], "1"]]
+        yield {"ops": BASE + mid + BATTERY[-2:], "check_from": len(BASE), "stratum": "emptyflux",
+               "shape": "emptyflux:wired"}
+
+
+DEGENERATE = [
+    ["add_reaction", "r0", {**fn(["k"], A(0)), "st": []}],                      # a reaction that moves nothing
+    ["add_derived", "d0", fn([], K(7))],                                         # a constant: no arguments
+    ["add_readout", "ro0", fn([], K(1))],
+    ["add_parameter", "p0", {"ia": fn([], K(3))}],                               # assignment without arguments
+    ["add_surrogate", "s0", {"args": [], "outs": ["oz"], "es": [K(1)], "st": []}],  # a surrogate without arguments / fluxes
+    ["add_surrogate", "s3", SUR3],                                               # an output flux wired to nothing
+    ["add_variable", "w", {"v": "0"}],                                           # a variable no reaction touches
+]
+
+
+def degenerate_histories():
+    """components of degenerate shape (empty stoichiometry, no arguments, no outputs, an unwired flux, an untouched
+    variable) next to the BASE model, then one edit that has to walk over them, then the getters"""
+    muts = [["remove_variable", "x", True], ["remove_variable", "w", True], ["make_variable_static", "w", None],
+            ["make_variable_static", "x", "2"], ["make_parameter_dynamic", "k", None, [["r0", "1"]]],
+            ["make_parameter_dynamic", "p0", None, [["ef", "1"]]], ["make_parameter_dynamic", "p0", None, None],
+            ["update_reaction", "r0", None, None, [["w", {"c": "1"}]]], ["update_reaction", "r1", None, None, []],
+            ["remove_reaction", "r0"], ["remove_surrogate", "s0"], ["remove_surrogate", "s3"],
+            ["update_surrogate", "s0", None, None, ["oa"], None], ["update_surrogate", "s3", None, None, [], None],
+            ["update_derived", "d0", None, ["k"]], ["remove_derived", "d0"], ["remove_readout", "ro0"],
+            ["scale_parameter", "p0", "2"], ["update_parameter", "p0", {"v": "1"}], ["remove_parameter", "p0"],
+            ["add_variable", "ef", {"v": "1"}], ["add_parameter", "oa", {"v": "1"}]]
+    qs = [["q", "stoich", ["1", "2", "3", "1"], "1"], ["q", "names", "surrxns"], ["q", "names", "survars"],
+          ["q", "names", "unused"], ["q", "fluxes", None, "0"], ["q", "eq"]]
+    for q in (None, QUERIES[0]):
+        for m in muts:
+            mid = DEGENERATE + ([q] if q else []) + [m] + qs
+            yield {"ops": BASE + mid + BATTERY, "check_from": len(BASE), "stratum": "degenerate",
+                   "shape": f"degenerate:{m[0]}"}
+
+
+def shadow_histories():
+    """a flux that the stoichiometry of a surrogate names but no output produces; with and without a DATA SET of the same
+    name: the derivative entry points read fluxes from the argument table (data sets popped) and only the arguments of
+    computed coefficients from `data | args` — thorough seed 0 of round 4 found the Lean model reading the flux from the
+    data set"""
+    su = {"args": ["x"], "outs": ["d9"], "es": [["+", A(0), K(1)]], "st": [["e9", [["x", {"c": "2"}]]]]}
+    qs = [["q", "rhs", ["2", "3", "1"], "1"], ["q", "call", "1", ["1", "2", "3"]], ["q", "rhstc", ROWS],
+          ["q", "fluxes", None, "0"], ["q", "stoich", ["1", "2", "3", "1"], "1"], ["q", "args", None, "0"]]
+    for data in ([], [["add_data", "e9", "1"]], [["add_data", "e9", "1"], ["remove_data", "e9"]],
+                 [["add_parameter", "e9", {"v": "1"}]]):
+        for q in (None, QUERIES[0]):
+            mid = ([q] if q else []) + [["add_surrogate", "n2", su]] + data + qs
+            yield {"ops": BASE + mid + BATTERY[-2:], "check_from": len(BASE), "stratum": "shadow",
+                   "shape": f"shadow:{len(data)}"}
+
+
+def copy_histories():
+    """deep copy / pickle round trip of a model with and without a filled cache, then an edit of the copy and queries:
+    the copy answers like a fresh model with ITS content, the original keeps its own, `==` ignores the cache"""
+    muts = [["update_parameter", "k", V(5)], ["remove_reaction", "r1"], ["add_variable", "n1", V(2)],
+            ["scale_parameter", "p", "2"], ["make_variable_static", "y", None], ["remove_surrogate", "s"],
+            ["update_data", "dd", "3"], ["add_parameter", "x", V(1)]]
+    for how in (["fork"], ["fork", "pickle"]):
+        for q in (None, QUERIES[0], QUERIES[2]):
+            for i, m in enumerate(muts):
+                mid = ([q] if q else []) + [how, m, QUERIES[i % len(QUERIES)], ["q", "eq"], how, QUERIES[(i + 1) % 3]]
+                yield {"ops": BASE + mid + BATTERY[-2:], "check_from": len(BASE), "stratum": "copy",
+                       "shape": f"copy:{how[-1]}:{m[0]}"}
+
+
+def probe_histories(names, arglists):
+    """BASE; [cache-filling query]; m.<name>(*args); queries — for public methods the model has no op for"""
+    for name in names:
+        for args in arglists:
+            for q in (None, QUERIES[0], QUERIES[2]):
+                mid = ([q] if q else []) + [["call", name, args]] + [QUERIES[0], QUERIES[1], ["q", "eq"]]
+                yield {"ops": BASE + mid + BATTERY, "check_from": len(BASE), "stratum": "probe",
+                       "shape": f"probe:{name}"}
+
+
 def triples(rng=None, n=None):
     """build; q; m1; m2; q over the reduced argument set (all of them, or a sample of n)"""
     ms = mut_ops(reduced=True)
@@ -429,6 +527,8 @@ def random_history(rng, length):
         return {"c": str(rng.choice([-2, -1, 1, 2, "1/2"]))}
 
     def st():
+        if rng.random() < 0.12:
+            return []  # a flux that is listed but not wired to any variable yet (`stoichiometries={"v": {}}`)
         vs = sim.names("vars")
         cands = vs if vs and rng.random() < 0.95 else vs + ["nope"]
         cands = list(dict.fromkeys(cands))  # a dict has each key once
@@ -588,7 +688,7 @@ def random_history(rng, length):
     while len(ops) < length:
         r = rng.random()
         if r < 0.03:
-            ops.append(["fork"])
+            ops.append(rng.choice([["fork"], ["fork", "pickle"]]))
         elif r < 0.35:
             ops.append(rng.choice(QUERIES + BATTERY + QUERIES2))
         else:
